@@ -24,7 +24,7 @@ func init() {
 			"snapshots entries and refreshed Synchronization objects are read from that cache, and each context gets a fresh snapshots " +
 			"map filled from its own (type, name); (R5) getIncludeSnapshotsFrom covers every binding type that can carry snapshots, the " +
 			"five group-merge loops and the Check* functions agree; (R6) the cache is copied under its lock; (R7) one informer per " +
-			"distinct name/namespace (de-duplicating producer). NOT decided: equality with the real cluster once quiet and after restart " +
+			"distinct name/namespace (de-duplicating producer). (R8) shared-informer lifetime as in C01.R13; (R9) every watch event updates the cache before the handler can return. NOT decided: equality with the real cluster once quiet and after restart " +
 			"(API server / informer semantics), consistency of a snapshot read while changes arrive beyond 'copied under the lock'.",
 		Run: runC02,
 	})
